@@ -93,6 +93,11 @@ class ParserFactory:
         # error max right now, it's best to show the lexing one.
         for err_msg, lineno in self.lexer.errors[::-1]:
             self.errors.insert(0, (err_msg, lineno, self.path))
+        if parsed_data is None:
+            # The parser gave up; the errors it recorded are reported by the caller.
+            if not self.errors:
+                self.errors.append(('Could not parse spec.', None, self.path))
+            parsed_data = []
         parsed_data.extend(self.anony_defs)
         self.exhausted = True
         return parsed_data
